@@ -314,6 +314,9 @@ func (x *run) checkC04(obs []seen, problems []*Failure) *Failure {
 			return fail("C04", "right-constructor", s.ViaKind+"/"+formFeature(reg)+fmt.Sprintf("/k%d", reg.Kind), "%s yielded %v, but that identity is provided by output %d of r%d (%s)", s.Where, s.E, s.Owner.Out, s.Owner.Reg, reg)
 		}
 	}
+	if st := x.W.StaleArgs(); len(st) > 0 {
+		return fail("C04", "right-argument", "parameter-object-changed-later", "%s", st[0])
+	}
 	for _, inv := range x.W.AllInvs() {
 		for ai, a := range inv.Args {
 			if a.Foreign {
